@@ -139,6 +139,8 @@ def run(cx, out):
         c01.check_type_info(out, facts)
     # premise: "the bytes A encodes to" is well defined: all encoding entry points of an impl agree (C07 R07.1)
     from . import shared
-    shared.premises(cx, out, {'c07': {'R07.1', 'R07.3'}, 'c01': {'R01.1'}})
+    # ... and "decode successfully as B": what an encoder emits lies inside what the decoder of the target accepts (C03 R03.2:
+    # validation guards of restricted targets, the bit-length limit on both sides)
+    shared.premises(cx, out, {'c07': {'R07.1', 'R07.3'}, 'c01': {'R01.1'}, 'c03': {'R03.2'}})
     from . import positive
     positive.check(cx, out, 'C16')
